@@ -596,3 +596,52 @@ def reader_stateless(ctx, rid, only=None):
                             'the %s token built by %s depends on %s, a variable that keeps its value from the previous capture of the line: a literal can inherit from the literal read before it' % (kind, fn_key(b.path), ', '.join(sorted(carried))), site=s_['loc'])
             else:
                 ctx.ok(rid, '%s: the %s token is a term of the current capture only' % (fn_key(b.path), kind), 'use-def', site=s_['loc'])
+
+
+def variant_consistent(e):
+    """False when the expression projects a variant out of a value built as *another* variant (`(Moment::Date{..} as Time).0`):
+    such an alternative of a merged enum value is not the one the projection is evaluated on"""
+    for x in walk(e):
+        if x[0] == 'downcast':
+            base = strip(x[1])
+            if base[0] == 'aggr' and '::' in str(base[1]):
+                if str(base[1]).rsplit('::', 1)[1] != str(x[2]) and str(base[1]).rsplit('::', 1)[1] not in ('tuple',):
+                    return False
+    return True
+
+
+def value_alternatives(b, e, conds=()):
+    """the feasible alternatives of a value that may be a projection of a merged enum value (a `match` on a value read through a
+    helper that returns an enum of the cases): [(expr, conds)] with variant-inconsistent alternatives dropped and projections of
+    the surviving aggregate resolved"""
+    from .facts import simplify_field
+    out = []
+    for a, c in alternatives(b, e, _conds=tuple(conds)):
+        if not variant_consistent(a):
+            continue
+        out.append((a, c))
+    return out
+
+
+def resolve_variant_projections(b, e):
+    """rewrite every `(merged enum value as V).i` inside e - also inside call arguments - to the one alternative that is built as
+    variant V (when there is exactly one)"""
+    from .facts import rebuild
+
+    def f(n):
+        if n[0] == 'field' and n[1][0] == 'downcast':
+            base = strip(n[1][1])
+            inner_phi = base[0] == 'phi' or (base[0] == 'field' and strip(base[1])[0] == 'downcast' and strip(strip(base[1])[1])[0] == 'phi')
+            if inner_phi:
+                try:
+                    alts = [a for a, _c in alternatives(b, n) if variant_consistent(a)]
+                except Exception:
+                    return n
+                rs = []
+                for a in alts:
+                    if render(a) not in [render(x) for x in rs]:
+                        rs.append(a)
+                if len(rs) == 1 and rs[0] is not n:
+                    return rs[0]
+        return n
+    return rebuild(e, f)
